@@ -120,7 +120,7 @@ def symiter_to_list(interp, st, it, node):
     k = z3.Int(V.fresh_name("k"))
     x = M.sym_item(interp, st, it, k, node)
     leaves = V.leaves_of(x)
-    arrs = [l if (l is None or isinstance(l, str)) else z3.Lambda([k], to_z3(l)) for l in leaves]
+    arrs = [l if (l is None or isinstance(l, str)) else V.lam_array(k, l) for l in leaves]
     return SymList(x, arrs, n)
 
 
@@ -444,7 +444,7 @@ def bi_map(interp, st, args, kwargs, node):
         finally:
             st.guards.pop()
         leaves = V.leaves_of(val)
-        arrs = [l if (l is None or isinstance(l, str)) else z3.Lambda([k], to_z3(l)) for l in leaves]
+        arrs = [l if (l is None or isinstance(l, str)) else V.lam_array(k, l) for l in leaves]
         return SymList(val, arrs, n)
     raise Outside("map over symbolic value", node)
 
@@ -1221,6 +1221,80 @@ def rng_choice_py(interp, st, args, kwargs, node):
     return M.getitem(interp, st, seq, k, node)
 
 
+def it_accumulate(interp, st, args, kwargs, node):
+    """itertools.accumulate(xs) over ints: running sums  cum[k] == xs[0] + ... + xs[k]  (trusted library contract,
+    stated through the same prefix-sum function psum that sum() uses)"""
+    M = _M()
+    xs = args[0]
+    if isinstance(xs, list):
+        out, acc = [], None
+        for x in xs:
+            acc = x if acc is None else M.s_add(acc, x)
+            out.append(acc)
+        return out
+    if not isinstance(xs, SymList) or not is_scalar(xs.get(z3.Int("k"))):
+        raise Outside("itertools.accumulate outside lists of ints", node)
+    _trust("itertools.accumulate(xs): cum[k] == xs[0]+...+xs[k], same length")
+    arr = xs.arrs[0]
+    for ax in psum_axioms(arr):
+        st.assume(ax)
+    k = z3.Int(V.fresh_name("k"))
+    cum = z3.Lambda([k], sumfn()(arr, k + 1))
+    return SymList(xs.tmpl, [cum], xs.length)
+
+
+def it_chain_from_iterable(interp, st, args, kwargs, node):
+    """list(itertools.chain.from_iterable(parts)): the concatenation, characterised positionally (trusted):
+    len == sum of the lengths; result[len_0 + ... + len_{d-1} + k] == parts[d][k] for 0 <= k < len_d"""
+    M = _M()
+    parts = args[0]
+    if not isinstance(parts, SymList) or not isinstance(parts.tmpl, SymList):
+        raise Outside("chain.from_iterable outside a symbolic list of lists", node)
+    _trust("itertools.chain.from_iterable(parts): positional concatenation of the parts in order")
+    inner = parts.tmpl
+    # lengths of the parts as an array
+    len_arr = parts.arrs[0]
+    for ax in psum_axioms(len_arr):
+        st.assume(ax)
+    total = sumfn()(len_arr, to_z3(parts.length))
+    out = SymList.fresh("chain", inner.tmpl, length=total)
+    d, k = z3.Int(V.fresh_name("d")), z3.Int(V.fresh_name("k"))
+    part_d = parts.get(d)
+    src = part_d.get(k)
+    dst = out.get(sumfn()(len_arr, d) + k)
+    eq = M.values_equal(dst, src) if hasattr(M, "values_equal") else V.values_equal(dst, src)
+    st.assume(
+        z3.ForAll([d, k], z3.Implies(z3.And(d >= 0, d < to_z3(parts.length), k >= 0, k < to_z3(part_d.length)), to_z3(eq)))
+    )
+    return out
+
+
+def np_searchsorted(interp, st, args, kwargs, node):
+    """np.searchsorted(a, v) (side='left') on a nondecreasing 1-d int array: the insertion point r with
+    a[r-1] < v <= a[r]  (trusted; stated in the local form, valid when a is nondecreasing)"""
+    a, v = args[0], as_int(args[1])
+    side = kwargs.get("side", args[2] if len(args) > 2 else "left")
+    if isinstance(a, SymList):
+        a = symlist_to_grid(interp, st, a, node)
+    if not isinstance(a, Grid) or a.rank != 1 or not is_scalar(v):
+        raise Outside("np.searchsorted outside (1-d array, scalar)", node)
+    if side not in ("left", "right"):
+        raise Outside("np.searchsorted side", node)
+    _trust("np.searchsorted(a, v, side): for nondecreasing a the unique r in [0, n] with a[r-1] < v <= a[r] (left) / a[r-1] <= v < a[r] (right)")
+    n = to_z3(a.dims[0])
+    r = z3.Int(V.fresh_name("searchsorted"))
+    k = z3.Int(V.fresh_name("k"))
+    sorted_ = z3.ForAll([k], z3.Implies(z3.And(k >= 0, k + 1 < n), a.select([k]) <= a.select([k + 1])))
+    zv = to_z3(v)
+    if side == "left":
+        props = z3.And(r >= 0, r <= n, z3.Or(r == 0, a.select([r - 1]) < zv), z3.Or(r == n, a.select([r]) >= zv))
+    else:
+        props = z3.And(r >= 0, r <= n, z3.Or(r == 0, a.select([r - 1]) <= zv), z3.Or(r == n, a.select([r]) > zv))
+    st.assume(z3.And(r >= 0, r <= n))
+    st.assume(z3.Implies(sorted_, props))
+    return r
+
+
 def warn(interp, st, args, kwargs, node):
     return None
 
@@ -1269,6 +1343,9 @@ LIBFUNCS = {
     "random.randint": rng_randint_py,
     "random.choice": rng_choice_py,
     "warnings.warn": warn,
+    "itertools.accumulate": it_accumulate,
+    "itertools.chain.from_iterable": it_chain_from_iterable,
+    "np.searchsorted": np_searchsorted,
     "tqdm.tqdm": identity1,
 }
 
